@@ -586,7 +586,7 @@ def eval_cases(ctx, exe, mexe, cases, stats, spec_only=False):
             continue
         try:
             verdict = check_one(ctx, c, payload, mres.get(i), post, i, gb_err, ci)
-        except (ValueError, IndexError, TypeError, ZeroDivisionError, OverflowError) as ex:
+        except (ValueError, IndexError, TypeError, KeyError, ZeroDivisionError, OverflowError, StopIteration) as ex:
             verdict = ("violation", "output of the implementation cannot be parsed / is not a number: %r" % (ex,))
         if verdict:
             kind, why = verdict[0], verdict[1]
@@ -612,7 +612,10 @@ def eval_cases(ctx, exe, mexe, cases, stats, spec_only=False):
     if post:
         pres = run_model(ctx, mexe, [(j, t.replace(" 0 ", " %d " % j, 1)) for j, (t, _, _) in enumerate(post)])
         for j, (_, handler, c) in enumerate(post):
-            verdict = handler(pres[j])
+            try:
+                verdict = handler(pres[j])
+            except (ValueError, IndexError, TypeError, KeyError, ZeroDivisionError, OverflowError) as ex:
+                verdict = ("violation", "output of the implementation cannot be interpreted: %r" % (ex,))
             if verdict:
                 kind, why = verdict[0], verdict[1]
                 if kind == "violation":
@@ -688,7 +691,8 @@ def check_one(ctx, c, payload, mout, post, i, gb_err, ci):
         same = (row == mrow and col == mcol and val == mval)
         if wf:
             ok_shape = (len(row) == N + 1 and all(0 <= x < max(N, 1) or N == 0 for x in col)
-                        and len(col) == len(val) and (not row or row[-1] == len(col)))
+                        and len(col) == len(val) and (not row or row[-1] == len(col))
+                        and all(0 <= r <= len(col) for r in row))
             if not ok_shape:
                 return ("violation", "symmetrizeMatrix returned a malformed CSR (row pointers %s, %d columns, %d values)"
                         % (row[:8], len(col), len(val)))
